@@ -827,6 +827,12 @@ def c15_streams(ctx):
         want_main = {"e": "err:Elevated", "c": "err:External"}.get(first)
         if want_main and f["main"] != "running" and f["main"] != want_main:
             what = f"the handler {'elevated the error' if first == 'e' else 'raised a critical error'}, but the main task ended with `{f['main']}` instead of that critical error"
+        # "passed to THE error handler": once a call has replaced the handler (Config::on_error returns before the call does), every later
+        # error goes to the replacement and none to the handler that is no longer installed
+        if "r" in behs_used:
+            k = behs_used.index("r")
+            stale = [h for h in handled[k + 1:] if not h.startswith("N:")]
+            if stale and not what: what = f"the handler replaced itself during call #{k + 1}, yet {stale} were still passed to the old handler: the installed handler never saw them"
         if what: s.oracle_failures.append((i, c, o, what))
         s.bump("main=" + f["main"]); s.bump("cap=" + c.split(" ")[1])
         if len(errs) >= 2: s.nontrivial.add(hashlib.md5((c.split(" ", 1)[1] + o).encode()).digest()[:8])
